@@ -40,4 +40,3 @@ func TestGeneratorsKeepTheirContracts(t *testing.T) {
 		}
 	})
 }
-
